@@ -165,6 +165,12 @@ def _gen_op(rng, cfg):
         rmax = rng.choice([5.0, 20.0, 100.0])
         b = None if rng.random() < 0.7 else rng.choice([3.0, 10.0, 49.0])
         return ["tf_new", cls, rmin, rmax, b]
+    if kind == "tf_wrap":
+        return ["tf_wrap", rng.randrange(1000)]
+    if kind == "tf_wcall":
+        n = rng.randint(1, 9)
+        arr = ["range", n + 1] if rng.random() < 0.4 else ["vals", [round(rng.uniform(0.1, 12.0), 3) for _ in range(n)]]
+        return ["tf_wcall", rng.randrange(1000), rng.choice(["transform", "transform", "inverse", "deriv", "deriv2"]), arr]
     if kind == "tf_call":
         n = rng.randint(1, 12) if rng.random() < 0.85 else rng.randint(13, 120)
         arr = ["range", n] if rng.random() < 0.5 else ["vals", [round(rng.uniform(0.0, 30.0), 3) for _ in range(n)]]
@@ -188,7 +194,7 @@ def _gen_op(rng, cfg):
 
 BASE_KINDS = [
     ("ang", 10), ("atom", 7), ("pruned", 2), ("preset", 1), ("shell", 4), ("mol", 2.5), ("molctor", 1.5), ("moluse", 3.5), ("use", 5), ("edit", 7),
-    ("reobserve", 3), ("drop", 1.5), ("restart", 2), ("tf_new", 2), ("tf_call", 6), ("coulomb", 3), ("perturb_rng", 1), ("invalid", 1.5),
+    ("reobserve", 3), ("drop", 1.5), ("restart", 2), ("tf_new", 2), ("tf_call", 6), ("tf_wrap", 2), ("tf_wcall", 4), ("coulomb", 3), ("perturb_rng", 1), ("invalid", 1.5),
 ]
 
 
@@ -1133,6 +1139,70 @@ def _op_tf_new(ctx, owner, op):
     ctx.log.add(ctx.step, "tf_new", cls, b)
 
 
+def _op_tf_wrap(ctx, owner, op):
+    """The caller wraps one of its transforms into an InverseRTransform - possibly before that transform has seen its
+    first grid.  The wrapper stands for the inverse of THAT transform, whatever scale it ends up with."""
+    from grid.rtransform import InverseRTransform
+
+    o = ctx.pick(owner, ("tf",), op[1])
+    if o is None or o.model.get("wrapper") is not None:
+        ctx.log.add(ctx.step, "tf_wrap", "skip")
+        return
+    oc = _outcome(lambda: InverseRTransform(o.obj))
+    if oc[0] == "raise":
+        ctx.violate("unexpected-raise", "tf_wrap", type(oc[1]).__name__, f"InverseRTransform({o.model['cls']}) raised {oc[1]!r}")
+        return
+    o.model["wrapper"] = oc[1]
+    ctx.probes.hit("inverse-wrapper-made:" + ("scale-fixed" if o.model["b"] is not None else "scale-not-yet-fixed"))
+    ctx.log.add(ctx.step, "tf_wrap", o.model["cls"], o.model["b"])
+
+
+def _op_tf_wcall(ctx, owner, op):
+    """A call on the inverse wrapper.  Once the wrapped transform's scale is fixed, the wrapper's answers are the closed
+    form of the inverse map with that scale - no matter when the wrapper was made or what was called before."""
+    _, h, method, aspec = op
+    cands = [x for x in ctx.objs.get(owner, []) if x.kind == "tf" and x.model.get("wrapper") is not None]
+    if not cands:
+        ctx.log.add(ctx.step, "tf_wcall", "skip")
+        return
+    o = cands[h % len(cands)]
+    m, inv = o.model, o.model["wrapper"]
+    if m["b"] is None or m["poisoned"]:
+        ctx.log.add(ctx.step, "tf_wcall", "skip-noscale")
+        return
+    b = float(m["b"])
+    x = _tf_array(aspec)
+    cf = lambda meth, arr: M.tf_closed_form(m["cls"], m["rmin"], m["rmax"], b, meth, arr)  # noqa: E731
+    with np.errstate(all="ignore"):
+        if method == "inverse":
+            arg, want = x, cf("transform", x)  # inv.inverse(x) = tf.transform(x)
+        else:
+            arg = np.asarray(cf("transform", x), dtype=float)  # radii in the codomain of tf
+            want = {"transform": x, "deriv": 1 / cf("deriv", x), "deriv2": -cf("deriv2", x) / cf("deriv", x) ** 3}[method]
+    if not np.all(np.isfinite(arg)):
+        ctx.log.add(ctx.step, "tf_wcall", "skip-nonfinite")
+        return
+    oc = _outcome(lambda: getattr(inv, method)(np.array(arg, dtype=float)))
+    if o.obj.b != m["b"]:
+        ctx.violate("tf-b-changed", "tf_wcall", f"{m['cls']}:{method}", f"a call on the inverse wrapper changed the scale of the wrapped {m['cls']}: {m['b']} -> {o.obj.b}")
+        m["b"] = o.obj.b
+        return
+    if oc[0] == "raise":
+        if isinstance(oc[1], ZeroDivisionError):
+            ctx.log.add(ctx.step, "tf_wcall", method, "raise-accepted")
+            return
+        ctx.violate("unexpected-raise", "tf_wcall", f"{m['cls']}:{method}:{type(oc[1]).__name__}", f"InverseRTransform({m['cls']}).{method} raised {oc[1]!r} although the wrapped transform has scale b={b}")
+        return
+    got = np.asarray(oc[1], dtype=float)
+    fin = np.isfinite(want)
+    good = got.shape == np.shape(want) and M.close(np.where(fin, got, 0.0), np.where(fin, want, 0.0), rtol=1e-8) and bool(np.all(np.isfinite(got[fin])))
+    if not good:
+        ctx.violate("tf-result", "tf_wcall", f"{m['cls']}:{method}", f"InverseRTransform({m['cls']}).{method} differs from the inverse of the wrapped transform with its fixed scale b={b} (depends on when the wrapper was made / what was called before)")
+    ctx.nontrivial = True
+    ctx.probes.hit("inverse-wrapper-called")
+    ctx.log.add(ctx.step, "tf_wcall", method, "ok", hash_array(got))
+
+
 def _op_tf_call(ctx, owner, op):
     from grid.onedgrid import UniformInteger
 
@@ -1353,7 +1423,7 @@ def _op_heal(ctx, owner, op):
 
 OPS = {
     "ang": _op_construct, "atom": _op_construct, "pruned": _op_construct, "preset": _op_construct,
-    "shell": _op_shell, "mol": _op_mol, "molctor": _op_molctor, "use": _op_use, "moluse": _op_moluse, "edit": _op_edit, "reobserve": _op_reobserve, "drop": _op_drop,
+    "shell": _op_shell, "mol": _op_mol, "molctor": _op_molctor, "use": _op_use, "moluse": _op_moluse, "tf_wrap": _op_tf_wrap, "tf_wcall": _op_tf_wcall, "edit": _op_edit, "reobserve": _op_reobserve, "drop": _op_drop,
     "restart": _op_restart, "tf_new": _op_tf_new, "tf_call": _op_tf_call, "coulomb": _op_coulomb,
     "invalid": _op_invalid, "perturb_rng": _op_perturb_rng, "arm": _op_arm, "heal": _op_heal,
 }
@@ -1640,7 +1710,7 @@ def _simpler_ops(op):
             yield ["atom", op[1], op[2], op[3], 0, op[5]]
     if k == "edit" and op[3] != "zero":
         yield ["edit", op[1], op[2], "zero"]
-    if k in ("shell", "use", "moluse", "edit", "reobserve", "tf_call", "mol") and op[1] != 0:
+    if k in ("shell", "use", "moluse", "edit", "reobserve", "tf_call", "tf_wrap", "tf_wcall", "mol") and op[1] != 0:
         yield [k, 0] + list(op[2:])
     if k == "tf_call" and op[3] != ["range", 2]:
         yield ["tf_call", op[1], op[2], ["range", 2]] + list(op[4:])
